@@ -353,17 +353,24 @@ fn stress(st: &mut Stats, rng: &mut Rng64, rounds: u64, grants: u32, engine: &st
         let barrier = Arc::new(std::sync::Barrier::new(1 + n_writers));
         let cap = c0 + grants * unit + 16;
         let mut writers = Vec::new();
+        // (thread id, polls that have returned) per writer: lets the main thread see a single poll that never returns
+        let mut beacons: Vec<Arc<(std::sync::atomic::AtomicI64, AtomicU64)>> = Vec::new();
         for _ in 0..n_writers {
             let wakes = Arc::new(CountWaker(AtomicU64::new(0)));
+            let beacon = Arc::new((std::sync::atomic::AtomicI64::new(-1), AtomicU64::new(0)));
+            beacons.push(beacon.clone());
             let (s, d, b, wk) = (stream.clone(), done.clone(), barrier.clone(), wakes.clone());
             writers.push(std::thread::spawn(move || {
                 let waker = Waker::from(wk);
                 let cx = Context::from_waker(&waker);
+                beacon.0.store(crate::util::own_tid(), Ordering::SeqCst);
                 b.wait();
                 let (mut ready, mut during) = (0u32, 0u32);
                 loop {
                     let finished = d.load(Ordering::SeqCst);
-                    match s.poll_obtain_write_permission(&cx) {
+                    let polled = s.poll_obtain_write_permission(&cx);
+                    beacon.1.fetch_add(1, Ordering::Relaxed);
+                    match polled {
                         Poll::Ready(Some(())) => {
                             ready += 1;
                             if !finished {
@@ -394,6 +401,45 @@ fn stress(st: &mut Stats, rng: &mut Rng64, rounds: u64, grants: u32, engine: &st
             }
             d.store(true, Ordering::SeqCst);
         });
+        // wait for the round, watching for a writer poll that keeps the CPU busy without ever returning (a poll is a handful
+        // of atomic operations; one that has burnt seconds of CPU time inside a single call is spinning, whatever the machine load:
+        // a thread that is merely not scheduled consumes no CPU time)
+        if !cfg!(miri) {
+            let mut last: Vec<(u64, u64, u64)> = beacons.iter().map(|_| (u64::MAX, 0, 0)).collect(); // (calls, cpu at last sample, cpu burnt with calls unchanged)
+            let mut spinning = None;
+            while !(acker.is_finished() && writers.iter().all(|w| w.is_finished())) {
+                std::thread::sleep(std::time::Duration::from_millis(50));
+                for (i, b) in beacons.iter().enumerate() {
+                    let tid = b.0.load(Ordering::SeqCst);
+                    let calls = b.1.load(Ordering::Relaxed);
+                    let Some(cpu) = crate::util::thread_cpu_ticks(tid) else { continue };
+                    if calls == last[i].0 {
+                        last[i].2 += cpu.saturating_sub(last[i].1);
+                    } else {
+                        last[i].2 = 0;
+                    }
+                    last[i].0 = calls;
+                    last[i].1 = cpu;
+                    if last[i].2 >= 400 {
+                        spinning = Some((i, last[i].2, calls));
+                    }
+                }
+                if spinning.is_some() {
+                    break;
+                }
+            }
+            if let Some((i, ticks, calls)) = spinning {
+                st.evaluations += 1;
+                st.violation(Violation {
+                    signature: "poll-never-returns|stress".into(),
+                    detail: format!("writer thread {i} has been inside one call of poll_obtain_write_permission for {ticks} clock ticks of its own CPU time (after {calls} polls that returned), with {n_writers} writer thread(s) and a thread granting credit {grants} x {unit}: the poll spins instead of returning"),
+                    replay: json!({"kind": "c12-stress", "engine": engine, "round": round, "c0": c0, "unit": unit, "grants": grants, "writers": n_writers, "witness": "per-thread utime+stime from /proc/self/task/<tid>/stat advancing while the thread's count of returned polls stands still"}),
+                });
+                // the spinning thread cannot be joined; the process ends when the results have been written
+                st.count("stress_rounds", round + 1);
+                return;
+            }
+        }
         acker.join().ok();
         let (mut ready, mut during) = (0u32, 0u32);
         for w in writers {
